@@ -182,4 +182,26 @@ theorem HW_writeRetry_prefix (s : HW) (buf : Bytes) (events : List Nat) :
           simp only [HW.write, List.append_assoc, List.append_cancel_left_eq]
           rw [List.take_add]
 
+/-- exact account of the retry loop: what reached the inner writer is the first `events.sum` bytes of the caller's data
+    (a failed call contributes 0, an accepting call at most its allowance, never more than is left) -/
+theorem HW_writeRetry_exact (s : HW) (buf : Bytes) (events : List Nat) :
+    (HW.writeRetry s buf events).written = s.written ++ buf.take events.sum := by
+  induction events generalizing s buf with
+  | nil => cases buf <;> simp [HW.writeRetry]
+  | cons a as ih =>
+    cases buf with
+    | nil => simp [HW.writeRetry]
+    | cons b bs =>
+      simp only [HW.writeRetry]
+      split
+      · rename_i h0; subst h0; simpa using ih s (b :: bs)
+      · rw [ih]
+        simp only [HW.write, List.append_assoc, List.append_cancel_left_eq, List.sum_cons]
+        by_cases hle : a ≤ (b :: bs).length
+        · rw [Nat.min_eq_left hle, ← List.take_add]
+        · have hlt : (b :: bs).length < a := Nat.lt_of_not_le hle
+          rw [Nat.min_eq_right (Nat.le_of_lt hlt)]
+          rw [List.drop_length, List.take_nil, List.append_nil, List.take_length]
+          exact (List.take_of_length_le (by omega)).symm
+
 end Xet.Merkle
